@@ -48,6 +48,10 @@ type scope struct {
 	// State
 	disposed int32 // atomic
 
+	// closer is the goroutine whose Close call won the disposed flag and runs
+	// the disposal (atomic; 0 until then)
+	closer atomic.Int64
+
 	// closeDone is closed when the Close call that won the disposed flag has
 	// finished; closeErr is that call's result (read after closeDone).
 	closeDone chan struct{}
@@ -284,10 +288,16 @@ func (s *scope) CreateScope(ctx context.Context) (Scope, error) {
 func (s *scope) Close() error {
 	if !atomic.CompareAndSwapInt32(&s.disposed, 0, 1) {
 		// Already closed, or being closed by another goroutine (for example the
-		// context watcher): wait, so that a returned Close always means closed
+		// context watcher): wait, so that a returned Close always means closed.
+		// A call made from inside that very disposal - by the Close method of an
+		// instance of this scope - cannot wait for it
+		if s.closer.Load() == goroutineID() {
+			return nil
+		}
 		<-s.closeDone
 		return nil
 	}
+	s.closer.Store(goroutineID())
 	verifPoint("scope.Close.won")
 
 	err := s.dispose()
@@ -303,9 +313,15 @@ func (s *scope) Close() error {
 // subtree is disposed and its error covers the whole subtree.
 func (s *scope) closeFromOwner() error {
 	if !atomic.CompareAndSwapInt32(&s.disposed, 0, 1) {
+		// (the owner's Close may itself have been called from inside this scope's
+		// disposal, by the Close method of one of its instances)
+		if s.closer.Load() == goroutineID() {
+			return nil
+		}
 		<-s.closeDone
 		return s.closeErr
 	}
+	s.closer.Store(goroutineID())
 	verifPoint("scope.closeFromOwner.won")
 
 	err := s.dispose()
